@@ -81,6 +81,15 @@ def contract_map():
     return mp
 
 SWEEPS = ['C18', 'C12']
+# checks whose contracts EXECUTE code of the file (callees of functions under contract), besides the
+# contracts on the mutated function itself
+FILE_PROPS = {
+    'pkg/codegen/emitter.go': ['C01', 'C19', 'C06'], 'pkg/codegen/model.go': ['C01', 'C08', 'C20'], 'pkg/codegen/utils.go': ['C15', 'C03', 'C01'],
+    'pkg/mathutils/utils.go': ['C05', 'C15'], 'internal/x/text/cases.go': ['C14', 'C01'], 'pkg/schemas/loaders.go': ['C10', 'C13', 'C20'],
+    'pkg/schemas/model.go': ['C13', 'C11', 'C04', 'C20'], 'pkg/schemas/parse.go': ['C13'], 'pkg/schemas/types.go': ['C11', 'C03'],
+    'pkg/generator/generate.go': ['C20', 'C16', 'C12'], 'pkg/generator/output.go': ['C14', 'C20', 'C02'], 'pkg/generator/utils.go': ['C12'],
+    'pkg/cmputil/opts.go': ['C02', 'C13'], 'main.go': ['C16', 'C20'], 'pkg/generator/schema_generator.go': ['C10', 'C01', 'C03'],
+}
 
 def phaseB(rows, out, workers):
     mp = contract_map()
@@ -111,6 +120,8 @@ def phaseB(rows, out, workers):
                     props |= ps
             if m['kind'] in ('template-op',) or 'Print' in m['old'] or m['file'].endswith('validator.go') or m['file'].endswith('formatter.go'):
                 props |= {'C01', 'C19', 'C17'}
+            for suffix, ps in FILE_PROPS.items():
+                if m['file'].endswith(suffix): props |= set(ps)
             if full: props = set(allp)
             det, errs, ran = [], [], []
             for p in sorted(props):
